@@ -284,6 +284,25 @@ def c08(ctx):
                 (6, 12, 0, 0, 1, "kxk6", "kxk"), (7, 4, 0, 0, 1, "kxk7", "kxk"), (3, 30, 60, 10, 1, "storm3seq", "storm"), (4, 10, 20, 8, 1, "storm4seq", "storm")]
     with ThreadPoolExecutor(max_workers=3) as ex:
         list(ex.map(lambda a: exact_batch(ctx, a[0], a[1], a[2], a[3], a[4], a[5], family=a[6]), plan))
+    # the cache accesses of games played on with one context (one worker: program order), validated by Trace_Search:
+    # a hit must return an entry stored for the SAME position with the same remaining depth, side and window
+    st = ctx.path("seqtrace.ndjson")
+    ssum = harness(["search-seqtrace", st, "--seed", ctx.seed, "--sequences", 2 if quick else 10, "--seq-len", 7, "--depth", 3], timeout=3600)
+    flat = ctx.path("seqtrace_flat.ndjson")
+    n, runs = flatten_schedules(st, flat)
+    if n:
+        r = tlc.run("Trace_Search", "Trace_Search.cfg", env={"TRACE": flat}, workers=1, want_records=True, heap="2g", young="400m", stack="64m", timeout=7200)
+        if r.postcondition_failed or r.distinct != n + 1:
+            raise ToolError("Trace_Search did not consume the sequence trace (%d states for %d events)\n%s" % (r.distinct, n, r.tail))
+        ctx.states += r.distinct
+        ctx.transitions += r.generated
+        ctx.traces += runs
+        for x in r.records:
+            if "bad" in x:
+                ctx.violation(x["why"], {"binding": "B2 cache accesses of successive searches with one context (hook H2), Trace_Search", "detail": x.get("x")}, sig={"kind": "trace"})
+        ctx.extra["reused_context_searches_traced"] = runs
+        ctx.extra["cache_events_validated"] = n
+        log("C08: %d successive searches with one context: %d cache events validated by Trace_Search" % (runs, n))
     ctx.rule = ("roots: seeded random sparse positions (two kings + 1-5 men), half-move clock 0; search with a brand-new context, and sequences of successive searches of a game sharing ONE context "
                 "(engine move, a reply, search again); reference: exact minimax folded bottom-up over the TLC state graph of each root (Oracle_Graph: nodes, legal edges, mate/stalemate verdicts) with the engine's own "
                 "static evaluation at the leaves and its mate scores by remaining depth read black-box; compared: last_score = root value and value of the returned move's child = root value (any optimal move accepted). "
@@ -302,7 +321,7 @@ def flatten_schedules(path, out):
                 continue
             runs += 1
             rootmax = r["pos"]["turn"] == 1
-            fo.write(json.dumps({"ev": "Begin", "rootmax": rootmax, "nroot": r["nroot"], "depth": r["depth"]}) + "\n")
+            fo.write(json.dumps({"ev": "Begin", "rootmax": rootmax, "nroot": r["nroot"], "depth": r["depth"], "fresh": r.get("fresh", True)}) + "\n")
             n += 1
             ids = {}
             for e in r["events"]:
